@@ -137,6 +137,106 @@ def _pack_return_gate(fn, cfg, fnorm, cname):
     return g
 
 
+def _none_or_falsy(f, name):
+    """The edge fact says that `name` is None / falsy."""
+    if not f:
+        return False
+    op, l, rr = f
+    return (op == "false" and l == name) or (op in ("is", "==") and {l, rr} == {"None", name})
+
+
+def _not_none_or_truthy(f, name):
+    if not f:
+        return False
+    op, l, rr = f
+    return (op == "truth" and l == name) or (op in ("is not", "!=") and {l, rr} == {"None", name})
+
+
+_NOWRITE = re.compile(r"^.+(\.get\('no-write'(, (False|None|0))?\)|\['no-write'\])$")
+
+
+def _nowrite_truthy(fnorm):
+    """Edge gate: the metadata's 'no-write' flag was seen truthy."""
+    def g(n, lab):
+        f = fnorm.edge_fact(n, lab)
+        if not f:
+            return False
+        op, l, rr = f
+        if op == "truth":
+            return bool(_NOWRITE.match(l or ""))
+        if op in ("is", "=="):
+            return (l == "True" and bool(_NOWRITE.match(rr or ""))) or (rr == "True" and bool(_NOWRITE.match(l or "")))
+        return False
+    return g
+
+
+def _check_readonly_wrap(r, fn, cfg, fnorm):
+    """The stored child is replaced by its read-only form only for an entry whose metadata says 'no-write'."""
+    for n in cfg.nodes:
+        if n.kind in ("stmt", "test") and calls_at(n, "create_readonly_node"):
+            r.site(fn, n.ast, "read-only replacement of the child")
+            for (t, w) in find_path_avoiding(cfg, lambda x, n=n: x is n, gate_edge=_nowrite_truthy(fnorm),
+                                             kill=lambda x: x.kind == "iter"):
+                r.violation(fn, fn.loc(n.ast), "the child is replaced by its read-only form although the entry's "
+                            "metadata was not seen to say 'no-write' (the stored child is not the child given; "
+                            "path: %s)" % w.brief(), w)
+
+
+def _loop_stale_uses(fn, cfg, it):
+    """[(node, name, Witness)]: inside the body of the for-loop `it`, a local that the body assigns (and that has
+    no definition before the loop) is read on a path of the current iteration that has not assigned it yet - the
+    value belongs to the previous item (or does not exist)."""
+    body_ids = {id(x) for st in it.ast.body for x in ast.walk(st)}
+    body = {n.id for n in cfg.nodes if n is not it and n.ast is not None and id(n.ast) in body_ids}
+    plain = lambda names: {s for s in names if "." not in s and not s.endswith("[]")}
+    assigned = set()
+    for nid in body:
+        assigned |= plain(node_stores(cfg.nodes[nid]))
+    targets = plain(node_stores(it))
+    rd = reaching_defs(cfg)
+    outer = set()
+    for name, ds in rd.get(it.id, {}).items():
+        if any(d < 0 or d not in body for d in ds):
+            outer.add(name)
+    assigned -= outer
+    if not assigned:
+        return []
+    INIT = (False, frozenset())
+
+    def transfer(n, lab, nxt, st):
+        inl, defd = st
+        if n is it:
+            if lab == "iter":
+                return (True, frozenset(targets & assigned))
+            if lab == "done":
+                return INIT
+            return st
+        if inl and n.id in body and lab != "exc":
+            return (True, defd | (plain(node_stores(n)) & assigned))
+        return st
+    visited, parent = explore(cfg, INIT, transfer)
+    out, seen = [], set()
+    for (nid, st) in sorted(visited, key=lambda x: (x[0], sorted(x[1][1]))):
+        inl, defd = st
+        if not inl or nid not in body:
+            continue
+        n = cfg.nodes[nid]
+        loads = set()
+        for e in node_exprs(n):
+            for x in own_nodes(e):
+                if isinstance(x, ast.Name) and isinstance(x.ctx, ast.Load):
+                    loads.add(x.id)
+        for name in sorted((loads & assigned) - defd):
+            if (nid, name) not in seen:
+                seen.add((nid, name))
+                out.append((n, name, witness(cfg, parent, (nid, st))))
+    return out
+
+
+def _contains_modify_call(e):
+    return any(isinstance(x, ast.Call) and call_tail(x) == "modify" for x in own_nodes(e))
+
+
 # ---------------------------------------------------------------------- run
 def run(ctx: Context):
     idx = ctx.idx
